@@ -622,7 +622,12 @@ func (x *Exec) addObl(st *State, kind, name, goal, pos, text string) *Obl {
 	} else {
 		x.oblNames[name] = 1
 	}
-	o := &Obl{Name: name, Kind: kind, Reach: x.reachOf(st), Goal: goal, Pos: pos, Text: text, Fn: x.topName}
+	reach := x.reachOf(st)
+	var extra []string
+	if strings.HasPrefix(goal, "(forall ((") {
+		goal, extra = x.vc.skolemize(goal)
+	}
+	o := &Obl{Name: name, Kind: kind, Reach: reach, Goal: goal, Pos: pos, Text: text, Fn: x.topName, Extra: extra}
 	x.vc.obls = append(x.vc.obls, o)
 	return o
 }
